@@ -189,7 +189,8 @@ WHOLE = {
     "journal.cc": [("journal.cc:add_xact(body)", r"bool\s+journal_t::add_xact\(xact_t \* xact\)\s*\{")],
     "textual.cc": [("textual.cc:xact_directive(body)", r"xact_t \* instance_t::xact_directive\(char \* line, std::streamsize len,\s*xact_t \* previous_xact\)\s*\{"),
                    ("textual.cc:parse(body)", r"void\s+instance_t::parse\(\)\s*\{"),
-                   ("textual.cc:default_account_directive(body)", r"void\s+instance_t::default_account_directive\(char \* line\)\s*\{")],
+                   ("textual.cc:default_account_directive(body)", r"void\s+instance_t::default_account_directive\(char \* line\)\s*\{"),
+                   ("textual.cc:account_default_directive(body)", r"void\s+instance_t::account_default_directive\(account_t \* account\)\s*\{")],
     "commodity.cc": [("commodity.cc:compare_by_commodity(body)",
                       r"int\s+commodity_t::compare_by_commodity::operator\(\)\(const amount_t \* left,\s*const amount_t \* right\)\s*const\s*\{")],
     "pool.cc": [("pool.cc:exchange(body)", r"commodity_pool_t::exchange\(const amount_t&\s+amount,\s*const amount_t&\s+cost,[^{]*\{")],
@@ -214,11 +215,27 @@ def lot_snippets():
     return out
 
 
+def bucket_snippets():
+    """the three spellings of a default-account declaration and where they lead"""
+    out = []
+    tx = _clean(strip_comments(src("textual.cc")))
+    m = re.search(r"case 'A': default_account_directive\(line \+ 1\); break;", tx)
+    need(m, "textual.cc: `A` directive no longer calls default_account_directive")
+    out.append(("textual.cc:A-directive", m.group(0)))
+    m = re.search(r'if \(std::strcmp\(p, "bucket"\) == 0\) \{ default_account_directive\(arg\); return true; \}', tx)
+    need(m, "textual.cc: `bucket` directive no longer calls default_account_directive")
+    out.append(("textual.cc:bucket-directive", m.group(0)))
+    m = re.search(r'else if \(keyword == "default"\) \{ account_default_directive\(account\); \}', tx)
+    need(m, "textual.cc: `account … default` no longer calls account_default_directive")
+    out.append(("textual.cc:account-default", m.group(0)))
+    return out
+
+
 def gen_finalize():
     """key statements (located one by one, so a change is localised) followed by the
     whole normalised bodies of the functions on the path (so that any edit of
     them, even one no key statement covers, breaks `C01.finalize_shape_pinned`)."""
-    items = shape() + lot_snippets()
+    items = shape() + lot_snippets() + bucket_snippets()
     for fname, sigs in WHOLE.items():
         items += extract.pin_functions(fname, sigs)
     return extract.gen_pairs("(site, normalised C++ text) of every statement Model/Finalize.lean mirrors, and the whole bodies "
